@@ -53,29 +53,15 @@ def run(tier, seed, replay):
                             vv["count"] = v
     cov["generations"] = ["v2", "root"]
     # wire level: generated client and server of collStr (readOnly / createOnly annotations) through the e2e harness
-    r4 = lib.run_tlc(sdir, "MC_Call.tla", "MC_Call.cfg", workers=8, timeout=1800)
-    if not r4.ok:
-        raise lib.Broken("Call.tla: %s violated" % r4.violated)
-    crows = sorted(set(json.loads(x) for x in r4.printed))[:50]
-    cf = os.path.join(scr.path, "calls.ndjson")
-    with open(cf, "w") as f:
-        for x in crows:
-            f.write(x + "\n")
-
-    def extra(d):
-        lib.vt_bindings(scr, d)
-        os.remove(os.path.join(d, "registry.go"))
-    e2e = lib.go_module(scr, "e2e", "v2", extra_src=extra)
-    code, out, err, wall = lib.run_bin(e2e, ["-in", cf], timeout=3000, cwd=os.path.dirname(e2e))
-    if code != 0:
-        raise lib.Broken("e2e harness failed: %s" % err[-3000:])
-    for line in out.splitlines():
-        o = json.loads(line)
-        if o["kind"] == "violation" and o["key"].startswith("C07/"):
-            verdict.add(o["key"], o["what"], o["case"])
-        elif o["kind"] == "stats":
-            totals["wire_client_calls"] = o["stats"].get("c07_client_calls", 0)
-            totals["wire_server_probes"] = o["stats"].get("c07_server_probes", 0)
+    from props import e2e_common
+    r4, crows = e2e_common.call_rows(sdir)
+    for gen, objs in e2e_common.e2e_runs(scr, crows[:50]):
+        for o in objs:
+            if o["kind"] == "violation" and o["key"].startswith("C07/"):
+                verdict.add(o["key"], o["what"], o["case"])
+            elif o["kind"] == "stats":
+                totals["wire_client_calls"] = totals.get("wire_client_calls", 0) + o["stats"].get("c07_client_calls", 0)
+                totals["wire_server_probes"] = totals.get("wire_server_probes", 0) + o["stats"].get("c07_server_probes", 0)
     cov.update(totals)
     cov["traces_validated_against_impl"] = 0
     cov["evaluations"] = sum(totals.values())
